@@ -19,7 +19,7 @@ class Silent(Check):
 
 def run_mutation(pid, mod, m, idx):
     real = os.path.join(REPO, m["file"])
-    src = open(real).read()
+    src = open(real, encoding="latin-1").read()      # byte-preserving: some repository files are not UTF-8
     cnt = src.count(m["old"])
     if cnt < 1:
         return "stale", "text not found"
@@ -32,7 +32,7 @@ def run_mutation(pid, mod, m, idx):
     new = src[:pos] + m["new"] + src[pos + len(m["old"]):]
     os.makedirs(os.path.join(WORK, "mut"), exist_ok=True)
     var = os.path.join(WORK, "mut", "%s_%d_%s" % (pid, idx, os.path.basename(real)))
-    with open(var, "w") as f:
+    with open(var, "w", encoding="latin-1") as f:
         f.write(new)
     chk = Silent(pid, "thorough")
     try:
